@@ -33,6 +33,19 @@ func GenCrash(seed uint64, prop string, tier string) *Case {
 		}
 		c.Clients[ci].Actions = acts
 	}
+	// now and then one bulk transaction whose wal record batch is far larger than any buffer or block size
+	if r.Intn(5) == 0 && len(c.Clients[0].Actions) > 0 {
+		vg := &valGen{client: 7}
+		t := &TxnProg{ID: 9000, Mode: "update", End: "commit"}
+		for _, k := range c.Keys {
+			id, _ := vg.next(&r, 9000)
+			t.Ops = append(t.Ops, Op{K: "set", Key: k, Val: id, Pad: 9000 + r.Intn(14000)})
+		}
+		acts := c.Clients[0].Actions
+		at := r.Intn(len(acts) + 1)
+		acts = append(acts[:at], append([]Action{{Kind: "txn", Txn: t}}, acts[at:]...)...)
+		c.Clients[0].Actions = acts
+	}
 	c.Crash = &CrashPlan{Depth: 1, PostTxns: 1 + r.Intn(3)}
 	if r.Intn(3) == 0 {
 		c.Crash.Depth = 2 + r.Intn(2)
@@ -114,6 +127,17 @@ func checkCrash(res *RunResult, prop string) *Eval {
 					ev.Probes["recovery_wal_and_tables"]++
 				}
 				if len(img.Ack.Inflight) > 0 {
+					for _, it := range img.Ack.Inflight {
+						sz := 0
+						for _, v := range it.New {
+							if v.pad > 0 {
+								sz += v.pad
+							}
+						}
+						if sz > 65536 {
+							ev.Probes["crash_with_inflight_commit_over_64KiB"]++
+						}
+					}
 					ev.Probes["crash_with_inflight_commit"]++
 					if len(img.Ack.Inflight[0].Keys) > 1 {
 						ev.Probes["crash_with_inflight_multikey_commit"]++
